@@ -362,4 +362,45 @@ func runC12(c *Ctx) {
 		c.check(good && n > 0, rule, "createClientTransport/private-entry-per-transaction", w.pos(f.Pos()), "each tcp table entry is a fresh fail-over object with no primary", "for tcp the creator hands out an object that is shared (stored under the destination's base key) or already has a primary: registering the inbound connection of one transaction overwrites the connection of every other pending transaction to that destination")
 	}
 	c.floor(rule, 3)
+	c12Expiry(c, "table-semantics")
+}
+
+// c12Expiry: an entry of the client transport table leaves it by age alone. TCPClientTransport.IsExpired is true only
+// when an expiry time is set (expire > 0) and has passed (now > expire) - a connection that is not open yet
+// (conn == nil: the reconnectable secondary of a transaction entry before its first use) is not a reason: the
+// once-a-minute sweep would otherwise drop the binding between a pending transaction and the connection its request
+// arrived on, and the response would be dialled to the Via address instead.
+func c12Expiry(c *Ctx, rule string) {
+	w := c.w
+	f := c.fn(rule, "(*TCPClientTransport).IsExpired")
+	if f == nil {
+		return
+	}
+	exp := func(v ssa.Value) bool {
+		b, ok := isLoadOf(v, "TCPClientTransport.expire")
+		return ok && isParam(f, b, 0)
+	}
+	isNow := func(v ssa.Value) bool {
+		cc, _ := callOfResult(v)
+		if cc == nil || w.calleeName(cc) != "(time.Time).Unix" {
+			return false
+		}
+		nc, _ := callOfResult(callArg(cc, -1))
+		return nc != nil && w.calleeName(nc) == "time.Now"
+	}
+	set := func(a Atom) bool { return a.Kind == "ltk" && a.K == 1 && exp(a.X) }
+	late := func(a Atom) bool { return a.Kind == "lt" && exp(a.X) && isNow(a.Y) }
+	good, n := true, 0
+	for _, r := range returnsUnder(f, nil) {
+		for _, bc := range boolCases(r, 0) {
+			if b, isB := constBool(bc.Leaf); isB && !b {
+				continue
+			}
+			n++
+			if !(w.holdsWhenTrue(f, bc, set, false) && w.holdsWhenTrue(f, bc, late, true)) {
+				good = false
+			}
+		}
+	}
+	c.check(good && n > 0, rule, "(*TCPClientTransport).IsExpired/by-age-only", w.pos(f.Pos()), "expired exactly when an expiry time is set and has passed", "TCPClientTransport.IsExpired can answer true without an expiry time that is set and has passed (e.g. for a transport whose connection is not open yet): the periodic sweep drops the table entry of a transaction that is still pending, and its response no longer returns on the connection the request used")
 }
